@@ -5,6 +5,7 @@ generates behaviours by simulation; each behaviour is executed, in order, agains
 step the produced array and numpy's global state are hashed; the equality pattern of the hashes must be exactly the
 equality pattern of the provenances the model attached to the steps, and the global state may change only on the
 steps the model marks as global."""
+import copy
 import hashlib
 import json
 import os
@@ -36,8 +37,14 @@ def _gstate():
     return hashlib.sha256(repr((st[0], st[1].tobytes(), st[2], st[3], st[4])).encode()).hexdigest()[:20]
 
 
+# the model's abstract seeds 0, 1, 2 bound to real seed values: as they are, and to seeds that agree modulo 2^32 / 2^64 or sit
+# at the edges of the 32- and 64-bit ranges ("different seeds give different screens" is about ALL seeds)
+SEEDMAPS = [{0: 0, 1: 1, 2: 2}, {0: 11, 1: 2 ** 32 + 11, 2: 2 ** 64 + 11}, {0: 2 ** 31 - 1, 1: 2 ** 31, 2: 2 ** 63}, {0: 2 ** 32 - 1, 1: 2 ** 32, 2: 2 ** 33}]
+
+
 class World:
-    def __init__(self, ao):
+    def __init__(self, ao, seedmap=0):
+        self.seedmap = SEEDMAPS[seedmap]
         self.ao = ao
         from aotools.turbulence import phasescreen, infinitephasescreen, profile_compression
         self.ps, self.ips, self.pc = phasescreen, infinitephasescreen, profile_compression
@@ -46,7 +53,7 @@ class World:
         self.k = 0
 
     def seed_arg(self, s):
-        return self.G if s == -1 else (None if s == -2 else int(s))
+        return self.G if s == -1 else (None if s == -2 else self.seedmap[int(s)])
 
     def step(self, rec):
         a = rec["a"]
@@ -67,6 +74,9 @@ class World:
             return np.array(self.objs[o].scrn, copy=True)
         if a == "add_row":
             return np.array(self.objs[rec["o"]].add_row(), copy=True)[0]
+        if a == "clone":
+            self.objs[rec["o"]] = copy.deepcopy(self.objs[rec["from"]])
+            return None
         if a == "unrelated":
             self.k += 1
             self.unrelated(self.k)
@@ -157,9 +167,11 @@ def pristine_references():
     return ref
 
 
-def run_behaviour(ao, hist, ref=None):
+def run_behaviour(ao, hist, ref=None, seedmap=0):
     """returns list of (key, detail)"""
-    w = World(ao)
+    w = World(ao, seedmap)
+    if seedmap:
+        ref = {k: v for k, v in (ref or {}).items() if not k.startswith(("ft|", "ftsh|"))}      # references were made with map 0
     outs = []
     notes = NOTES
     for i, rec in enumerate(hist):
@@ -177,7 +189,7 @@ def run_behaviour(ao, hist, ref=None):
         is_global = rec["a"] in ("global_user", "global_seed", "global_draw")
         if g0 != g1 and not is_global:
             return [("rng:global-state-touched-by:%s" % rec["a"], dict(step=i, record=rec))]
-        if rec["a"] in ("new", "add_row", "unrelated") or (rec["a"] in ("ft", "ftsh") and rec["seed"] != -1):
+        if rec["a"] in ("new", "add_row", "unrelated", "clone") or (rec["a"] in ("ft", "ftsh") and rec["seed"] != -1):
             if repr(w.G.bit_generator.state) != Gs0:
                 return [("rng:user-generator-advanced-by:%s" % rec["a"], dict(step=i, record=rec))]
         if out is not None:
@@ -213,8 +225,12 @@ def run(run):
                  workers=4, timeout=3000)
     if rs.violated:
         raise core.MachineryError("RngIso.tla (simulation) violates %s" % rs.violated)
+    rso = run.tlc("RngIso", "RngIso_simobj.cfg", label="RngIso/simulate-instances", simulate=dict(num=150 if quick else 1500), depth=11,
+                  workers=4, timeout=3000)
+    if rso.violated:
+        raise core.MachineryError("RngIso.tla (instance simulation) violates %s" % rso.violated)
     seen, behaviours = set(), []
-    for p in rs.printed:
+    for p in rso.printed[:400 if quick else 4000] + rs.printed:
         key = repr(p["hist"])
         if key not in seen:
             seen.add(key)
@@ -230,14 +246,15 @@ def run(run):
     ref = pristine_references()
     run.aux["pristine_reference_requests"] = len(ref)
     try:
-        for hist in behaviours:
+        for bi, hist in enumerate(behaviours):
             for rec in hist:
                 acts[rec["a"]] = acts.get(rec["a"], 0) + 1
+            sm = bi % len(SEEDMAPS)
             with np.errstate(all="ignore"):
-                bad = run_behaviour(ao, hist, ref)
+                bad = run_behaviour(ao, hist, ref, sm)
             run.traces += 1
             for key, detail in bad:
-                run.violation(key, detail, dict(kind="behaviour", hist=hist))
+                run.violation(key + (":seeds-beyond-32-bits" if sm else ""), detail, dict(kind="behaviour", hist=hist, seedmap=sm))
     finally:
         np.random.set_state(saved)
     run.sample(behaviours[0])
@@ -259,7 +276,7 @@ def replay(run, case):
     saved = np.random.get_state()
     try:
         with np.errstate(all="ignore"):
-            for key, detail in run_behaviour(ao, case["hist"], pristine_references()):
+            for key, detail in run_behaviour(ao, case["hist"], pristine_references(), case.get("seedmap", 0)):
                 run.violation(key, detail, case)
     finally:
         np.random.set_state(saved)
